@@ -677,7 +677,6 @@ fn families(tier: vcore::Tier) -> Vec<Family> {
             Family { name: "exh-3ops-multi-output-inplace", k: 3, multi0: true, none_slots: false, orders: 2, ..base },
             // four single-output operators
             Family { name: "exh-4ops-wiring", k: 4, none_slots: false, in_place: false, ..base },
-            Family { name: "exh-4ops-inplace", k: 4, free: 0, ..base },
         ]);
     }
     v
